@@ -33,7 +33,9 @@ AllMethods == {"Str", "Strs", "Bytes", "Hex", "Bool", "Bools", "Int", "Ints", "I
                "ArrayEmpty", "DictEmpty", "StrsEmpty", "IntsNil", "BytesEmpty", "StrEmpty", "ErrNil", "TimesEmpty",
                \* one large value: the buffer grows to the largest capacity that is still pooled (Str: 60 000 bytes, capacity exactly
                \* 64 KiB; Bytes: 45 000 bytes, 48 KiB and - with more fields after it - 64 KiB)
-               "StrBig", "BytesBig"}
+               "StrBig", "BytesBig",
+               \* arguments BUILT AT THE CALL SITE (slice literals of variables): no allocation as long as the methods do not let their parameters escape
+               "IntsInline", "StrsInline", "Floats64Inline", "BoolsInline", "TimesInline", "DursInline"}
 
 \* ArrayM: Array with a pointer LogArrayMarshaler (the temporary *Array comes from and returns to the pool inside the call)
 \* methods that take an object from a pool (and must give it back, also when the event is filtered)
